@@ -79,6 +79,7 @@ func (c15) Run(t *tape.Tape, st *Stats) *Violation {
 	defer simrt.ResetSteps(0)
 	racesBefore := simrt.RaceErrors()
 	var got image.Image
+	var atReturn [][]uint8
 	var panicked interface{}
 	res := simrt.Run(sc, func() {
 		defer func() { panicked = recover() }()
@@ -89,6 +90,9 @@ func (c15) Run(t *tape.Tape, st *Stats) *Violation {
 			got = prism.ConvertImageToRGBA(arg, par)
 		default:
 			got = prism.ConvertImageToRGBA64(arg, par)
+		}
+		if got != nil && !reflect.ValueOf(got).IsNil() {
+			atReturn = snapshotPlanes(got) // the caller looks at the result as soon as the call has returned
 		}
 	})
 	races := simrt.RaceErrors() - racesBefore
@@ -162,6 +166,13 @@ func (c15) Run(t *tape.Tape, st *Stats) *Violation {
 	}
 	if reflect.TypeOf(got) != reflect.TypeOf(want) {
 		return fail("bounds-differ", fmt.Sprintf("result type %T, expected %T", got, want))
+	}
+	if atReturn != nil {
+		if ok, why := planesEqual(atReturn, want); !ok {
+			if okFinal, _ := samePlanes(got, want); okFinal {
+				return fail("incomplete-at-return", why+" in the result when the call returned; it became correct only later (work still running after the return)")
+			}
+		}
 	}
 	if ok, why := samePlanes(got, want); !ok {
 		return fail("pixel-differs", why+" compared with draw.Draw(Src)")
